@@ -46,6 +46,10 @@ MergeWatch ==
             [] OTHER -> msrc
 StartedMergeSucceeds == (Ev.ev = "merge" /\ msrc # {} /\ msrc # {0}) => Ev.ok
 
-MNext == (TNext \/ MStep) /\ MergeWatch /\ StartedMergeSucceeds
+\* at the end of a run every file in the directory is in the persisted managed list (whatever a merge
+\* thread that outlived its writer registered while the next writer was being created)
+EndManaged == (Ev.ev = "end" /\ "managed" \in DOMAIN Ev) => SeqToSet(Ev.listing) \subseteq SeqToSet(Ev.managed)
+
+MNext == (TNext \/ MStep) /\ MergeWatch /\ StartedMergeSucceeds /\ EndManaged
 MSpec == TInit /\ msrc = {} /\ [][MNext]_<<vars, msrc>>
 =============================================================================
